@@ -1,25 +1,28 @@
 #!/bin/bash
 # usage: seed_eval.sh <worktree> <property> <mutant-index> [test files...]
 # 1) confirms in the scratch worktree: demo passes pristine / fails patched, listed tests pass patched
-# 2) applies the patch to /repo, runs ./check <property>, undoes it;  3) stores everything in /verif/seeded/<pid>_m<i>/
+# 2) runs ./check <property> against the patched worktree (PVC_REPO=<worktree>; /repo itself is not touched, so
+#    several evaluations can run side by side); tools/seed_sweep.sh repeats it with `git -C /repo apply`
+# 3) stores everything in /verif/seeded/<pid>_m<i>/
 wt=$1; pid=$2; i=$3; shift 3
 tests="$@"
 d=/verif/seeded/${pid}_m$i
 mkdir -p $d
 cp $wt/mutant_$i/patch.diff $wt/mutant_$i/demo.py $d/ 2>/dev/null
 cp $wt/mutant_$i/notes.md $d/notes.md 2>/dev/null
-export NUMBA_CACHE_DIR=/tmp/nbc_seed_$pid_$i
+export NUMBA_CACHE_DIR=/tmp/nbc_seed_${pid}_$i
+[ -d $wt/sigpyproc.egg-info ] || cp -r /repo/sigpyproc.egg-info $wt/ 2>/dev/null
 cd $wt && git checkout -q -- sigpyproc
 PYTHONPATH=$wt /venv/bin/python $d/demo.py > $d/demo_pristine.log 2>&1; p0=$?
 git apply $d/patch.diff || { echo "patch does not apply"; exit 9; }
 PYTHONPATH=$wt /venv/bin/python $d/demo.py > $d/demo_patched.log 2>&1; p1=$?
 t1=skipped
 if [ -n "$tests" ]; then PYTHONPATH=$wt /venv/bin/python -m pytest -q -p no:cacheprovider $tests > $d/tests_patched.log 2>&1; t1=$?; fi
-git checkout -q -- sigpyproc
 cd /verif
-git -C /repo apply $d/patch.diff
-./check $pid > $d/check_patched.log 2>&1; c1=$?
-git -C /repo checkout -- .
+out=/tmp/seedout_${pid}_$i; mkdir -p $out
+PVC_REPO=$wt PVC_OUT=$out ./check $pid > $d/check_patched.log 2>&1; c1=$?
+rm -rf $out
+cd $wt && git checkout -q -- sigpyproc; cd /verif
 rm -rf $NUMBA_CACHE_DIR
 echo "demo_pristine=$p0 demo_patched=$p1 tests_patched=$t1 check_exit=$c1"
 grep -m3 "VIOLATION" $d/check_patched.log | cut -c1-220
